@@ -98,6 +98,7 @@ class C16(MergeFamProp):
             D(M({'a': Q([S(1), S(2)]), 'b': M({'c': Q([S(3)])})}), M({'a': Q([S(9)], tag='append'), 'b': M({'c': Q([S(4), S(5)], tag='extend')})})),
             D(M({'a': M({'x': S(1), 'y': Q([S(2)])}), 'b': S(5)}), M({'q': Stext('a', 'prev')}), M({'q': M({'y': Q([S(7)], tag='append')})})),
             D(M({'b': Q([S(1)]), 'c': S(2)}), M({'b': Q([S(2)], kw={'new': False})}), M({'b': Q([S(3)], tag='append')})),      # D51 (known finding)
+            D(M({'a': Q([S(1)], tag='append'), 'z': S(0)}), M({'a': Q([S(2)], tag='extend')}), M({'q': Stext('a', 'prev')}), M({'q': Q([S(3)], tag='append')})),   # first-stage operator, then grown and moved
             D(M({'a': S(1)}), M({'a': Q([S(2)], tag='append')})),
             D(M({'a': S(1)}), M({'a': Q([S(2)], tag='extend'), 'z': Q([S(3)], tag='extend')})),
             D(M({'a': Q([S(1)])}), M({'b': Stext('nope', 'prev')})),
@@ -116,6 +117,10 @@ class C16(MergeFamProp):
         for _ in range(n):
             st = list(self.STYLES[rng.randrange(len(self.STYLES))]) if rng.random() < 0.4 else ['flow', 0, 0]
             base = M([(k, gen_plain_value(rng, 3)) for k in rng.sample(['a', 'b', 'c', 'k', 'x', 'x.y', 'my-key', 'k 1'], rng.choice([2, 3, 4]))])
+            if rng.random() < 0.2:
+                # an operator in the FIRST document has nothing before it: it becomes a plain list, which later operators must be able
+                # to grow and move like any other (seeded change S6-C16: the first-stage node stayed an operator node)
+                base['m'].append([rng.choice(['fs', 'first']), Q([gen_plain_value(rng, 0) for _ in range(rng.choice([1, 2]))], tag=rng.choice(['append', 'extend']))])
             docs = [{'raw': base}]
             cur = copy.deepcopy(plain_of(base))
             for _s in range(rng.choice([1, 1, 2, 2, 3])):
